@@ -242,4 +242,379 @@ MUTANTS = [
         let DcConfiguration {""")]},
     {"id": "c18-wait-minus-shift", "property": "C18", "expect": "C18.cycle",
      "edits": [("src/subdevice_group/mod.rs", "(self.dc_conf.sync0_period - cycle_start_offset) + self.dc_conf.sync0_shift;", "(self.dc_conf.sync0_period - cycle_start_offset).saturating_sub(self.dc_conf.sync0_shift);")]},
+    # ---------------- C04 ----------------
+    {"id": "c04-fprd-code", "property": "C04", "expect": "C04.cmd|code:Fprd",
+     "edits": [("src/command/mod.rs", "const FPRD: u8 = 0x04;", "const FPRD: u8 = 0x05;")]},
+    {"id": "c04-flags-offset-5", "property": "C04", "expect": "C04.layout|CreatedFrame::push_pdu:flags-offset",
+     "edits": [("src/pdu_loop/frame_element/created_frame.rs", """        // Frame was added successfully, so now we can update the previous PDU `more_follows` flag to true.
+        if let Some(last_header_location) = self.last_header_location.as_mut() {
+            // Flags start at 6th bit of header
+            let flags_offset = 6usize;
+
+            let last_flags_buf = fmt::unwrap_opt!(
+                self.inner
+                    .pdu_buf_mut()
+                    .get_mut((*last_header_location + flags_offset)..)
+            );
+
+            let mut last_flags = fmt::unwrap!(PduFlags::unpack_from_slice(last_flags_buf));
+
+            last_flags.more_follows = true;
+
+            last_flags.pack_to_slice_unchecked(last_flags_buf);
+
+            // Previous header is now the one we just inserted
+            *last_header_location = buf_range.start;
+        } else {
+            self.last_header_location = Some(0);
+        }
+
+        Ok(PduResponseHandle {""", """        // Frame was added successfully, so now we can update the previous PDU `more_follows` flag to true.
+        if let Some(last_header_location) = self.last_header_location.as_mut() {
+            // Flags start at 6th bit of header
+            let flags_offset = 5usize;
+
+            let last_flags_buf = fmt::unwrap_opt!(
+                self.inner
+                    .pdu_buf_mut()
+                    .get_mut((*last_header_location + flags_offset)..)
+            );
+
+            let mut last_flags = fmt::unwrap!(PduFlags::unpack_from_slice(last_flags_buf));
+
+            last_flags.more_follows = true;
+
+            last_flags.pack_to_slice_unchecked(last_flags_buf);
+
+            // Previous header is now the one we just inserted
+            *last_header_location = buf_range.start;
+        } else {
+            self.last_header_location = Some(0);
+        }
+
+        Ok(PduResponseHandle {""")]},
+    {"id": "c04-add-pdu-short", "property": "C04", "expect": "C04.push|CreatedFrame::push_pdu:bounded-write",
+     "edits": [("src/pdu_loop/frame_element/created_frame.rs", """        self.inner.add_pdu(alloc_size, pdu_idx);
+
+        let index_in_frame = self.pdu_count;
+
+        self.pdu_count += 1;
+
+        // Frame was added successfully, so now we can update the previous PDU `more_follows` flag to true.
+        if let Some(last_header_location) = self.last_header_location.as_mut() {
+            // Flags start at 6th bit of header
+            let flags_offset = 6usize;
+
+            let last_flags_buf = fmt::unwrap_opt!(
+                self.inner
+                    .pdu_buf_mut()
+                    .get_mut((*last_header_location + flags_offset)..)
+            );
+
+            let mut last_flags = fmt::unwrap!(PduFlags::unpack_from_slice(last_flags_buf));
+
+            last_flags.more_follows = true;
+
+            last_flags.pack_to_slice_unchecked(last_flags_buf);
+
+            // Previous header is now the one we just inserted
+            *last_header_location = buf_range.start;
+        } else {
+            self.last_header_location = Some(0);
+        }
+
+        Ok(PduResponseHandle {""", """        self.inner.add_pdu(data_length_usize + 10, pdu_idx);
+
+        let index_in_frame = self.pdu_count;
+
+        self.pdu_count += 1;
+
+        // Frame was added successfully, so now we can update the previous PDU `more_follows` flag to true.
+        if let Some(last_header_location) = self.last_header_location.as_mut() {
+            // Flags start at 6th bit of header
+            let flags_offset = 6usize;
+
+            let last_flags_buf = fmt::unwrap_opt!(
+                self.inner
+                    .pdu_buf_mut()
+                    .get_mut((*last_header_location + flags_offset)..)
+            );
+
+            let mut last_flags = fmt::unwrap!(PduFlags::unpack_from_slice(last_flags_buf));
+
+            last_flags.more_follows = true;
+
+            last_flags.pack_to_slice_unchecked(last_flags_buf);
+
+            // Previous header is now the one we just inserted
+            *last_header_location = buf_range.start;
+        } else {
+            self.last_header_location = Some(0);
+        }
+
+        Ok(PduResponseHandle {""")]},
+    {"id": "c04-no-zero-fill", "property": "C04", "expect": "C04.init|zero-fill",
+     "edits": [("src/pdu_loop/frame_element/frame_box.rs", "        ethernet_frame.payload_mut().fill(0);\n", "")]},
+    {"id": "c04-pack-shift-8", "property": "C04", "expect": "C04.cmd|pack:register-address",
+     "edits": [("src/command/mod.rs", "u32::to_le_bytes((u32::from(register) << 16) + u32::from(address))", "u32::to_le_bytes((u32::from(register) << 8) + u32::from(address))")]},
+    {"id": "c04-header-len-plus-2", "property": "C04", "expect": "C04.hdr|mark_sendable:length",
+     "edits": [("src/pdu_loop/frame_element/created_frame.rs", "EthercatFrameHeader::pdu(self.inner.pdu_payload_len() as u16)", "EthercatFrameHeader::pdu(self.inner.max_len_for_test() as u16)"),
+               ("src/pdu_loop/frame_element/frame_box.rs", "    pub fn set_state(&self, to: FrameState) {", "    pub fn max_len_for_test(&self) -> usize {\n        self.max_len\n    }\n\n    pub fn set_state(&self, to: FrameState) {")]},
+    {"id": "c04-pdu-flags-mask", "property": "C04", "expect": "C04.layout|PduFlags",
+     "edits": [("src/pdu_loop/pdu_flags.rs", "            | ((self.circulated as u16) << 14)", "            | ((self.circulated as u16) << 13)")]},
+    # ---------------- C07 ----------------
+    {"id": "c07-copy-whole-chunk", "property": "C07", "expect": "C07.inputs|range-clamped",
+     "edits": [("src/subdevice_group/mod.rs", "            ..(total_bytes_sent + bytes_in_this_chunk).min(self.read_pdi_len);", "            ..(total_bytes_sent + bytes_in_this_chunk).min(self.pdi_len);")]},
+    {"id": "c07-lrw-address-no-offset", "property": "C07", "expect": "C07.cycle|SubDeviceGroup::tx_rx:lrw-address",
+     "edits": [("src/subdevice_group/mod.rs", """            // Start offset in the EtherCAT address space
+            let pushed_chunk = if !chunk.is_empty() {
+                let start_addr = self.inner().pdi_start.start_address + total_bytes_sent as u32;""", """            // Start offset in the EtherCAT address space
+            let pushed_chunk = if !chunk.is_empty() {
+                let start_addr = self.inner().pdi_start.start_address;""")]},
+    {"id": "c07-wkc-last-only", "property": "C07", "expect": "C07.cycle|SubDeviceGroup::tx_rx:wkc-accumulator",
+     "edits": [("src/subdevice_group/mod.rs", """                total_bytes_sent += bytes_in_this_chunk;
+                // The counters are device supplied: don't overflow on bogus values
+                lrw_wkc_sum = lrw_wkc_sum.saturating_add(wkc);
+            }
+
+            // If there are any more PDUs, these are state checks
+            for state_check_pdu in pdus {
+                let state_check_pdu = state_check_pdu?;
+
+                let state = AlControl::unpack_from_slice(&state_check_pdu)?;
+
+                let _ = subdevice_states.push(state.state);
+            }
+        }
+
+        Ok(TxRxResponse {
+            working_counter: lrw_wkc_sum,
+            subdevice_states,
+            extra: (),""", """                total_bytes_sent += bytes_in_this_chunk;
+                lrw_wkc_sum = wkc;
+            }
+
+            // If there are any more PDUs, these are state checks
+            for state_check_pdu in pdus {
+                let state_check_pdu = state_check_pdu?;
+
+                let state = AlControl::unpack_from_slice(&state_check_pdu)?;
+
+                let _ = subdevice_states.push(state.state);
+            }
+        }
+
+        Ok(TxRxResponse {
+            working_counter: lrw_wkc_sum,
+            subdevice_states,
+            extra: (),""")]},
+    {"id": "c07-state-check-wrong-device", "property": "C07", "expect": "C07.checks|member-addressed",
+     "edits": [("src/subdevice_group/mod.rs", "            Command::fprd(sd.configured_address(), RegisterAddress::AlStatus.into()).into(),", "            Command::fprd(sd.configured_address().wrapping_add(num_in_this_frame as u16), RegisterAddress::AlStatus.into()).into(),")]},
+    # ---------------- C08 ----------------
+    {"id": "c08-no-threading", "property": "C08", "expect": "C08.group|offset-threading",
+     "edits": [("src/subdevice_group/mod.rs", """            pdi_position = subdevice_config
+                .configure_fmmus(
+                    pdi_position,""", """            pdi_position = subdevice_config
+                .configure_fmmus(
+                    inner.pdi_start,""")]},
+    {"id": "c08-no-capacity-check", "property": "C08", "expect": "C08.group|capacity-check",
+     "edits": [("src/subdevice_group/mod.rs", "        if self.pdi_len > MAX_PDI {", "        if self.pdi_len > MAX_PDI && false {")]},
+    {"id": "c08-group-no-advance", "property": "C08", "expect": "C08.thread|into_pre_op",
+     "edits": [("src/subdevice_group/handle.rs", "        Ok(pdi_position.increment(self.max_pdi_len as u16))", "        Ok(pdi_position.increment(self.inner.subdevices.len() as u16))")]},
+    {"id": "c08-fmmu-offset-after", "property": "C08", "expect": "C08.dev|write_fmmu_config:window",
+     "edits": [("src/subdevice/configuration.rs", "                logical_start_address: global_offset.start_address,", "                logical_start_address: global_offset.increment_byte_aligned(sm_bit_len).start_address,")]},
+    {"id": "c08-write-guard-over-inputs", "property": "C08", "expect": "C08.guard",
+     "edits": [("src/subdevice/pdi.rs", "            lock: self.state.pdi.write(),\n            range: self.state.config.io.output.bytes.clone(),", "            lock: self.state.pdi.write(),\n            range: self.state.config.io.input.bytes.clone(),")]},
+    # ---------------- C09 ----------------
+    {"id": "c09-single-loop", "property": "C09", "expect": "C09.init|two-phase-addressing",
+     "edits": [("src/maindevice.rs", """            .send(self, configured_address)
+            .await?;
+        }
+
+        // Now perform initial configuration for each subdevice. This is done in a separate loop
+        // after all configured addresses are set to deal with the case where a powered on SD with a
+        // set address is added to the network before init. In this case, two SDs could have the
+        // same address which wouldn't have been reset yet when we're half way through a single
+        // configuration loop.
+        for subdevice_idx in 0..num_subdevices {
+            let configured_address = BASE_SUBDEVICE_ADDRESS.wrapping_add(subdevice_idx);
+""", """            .send(self, configured_address)
+            .await?;
+""")]},
+    {"id": "c09-push-back-ignored", "property": "C09", "expect": "C09.init|capacity:Deque::push_back",
+     "edits": [("src/maindevice.rs", """            subdevices
+                .push_back(subdevice)
+                .map_err(|_| Error::Capacity(Item::SubDevice))?;""", """            let _ = subdevices.push_back(subdevice);""")]},
+    {"id": "c09-no-preop-wait", "property": "C09", "expect": "C09.init|preop-wait",
+     "edits": [("src/maindevice.rs", "        self.wait_for_state(SubDeviceState::PreOp).await?;\n\n        Ok(groups)", "        Ok(groups)")]},
+    {"id": "c09-base-address", "property": "C09", "expect": "C09.init|base-address",
+     "edits": [("src/lib.rs", "const BASE_SUBDEVICE_ADDRESS: u16 = 0x1000;", "const BASE_SUBDEVICE_ADDRESS: u16 = 0x0000;")]},
+    # ---------------- C10 ----------------
+    {"id": "c10-no-wait", "property": "C10", "expect": "C10.transition|typestate-after-successful-wait",
+     "edits": [("src/subdevice_group/mod.rs", "        self.wait_for_state(maindevice, desired_state).await?;\n\n        fmt::debug!(\"--> Group reached state {}\", desired_state);", "        fmt::debug!(\"--> Group reached state {}\", desired_state);")]},
+    {"id": "c10-wait-other-state", "property": "C10", "expect": "C10.transition|typestate-after-successful-wait",
+     "edits": [("src/subdevice_group/mod.rs", "        self.wait_for_state(maindevice, desired_state).await?;\n\n        fmt::debug!(\"--> Group reached state {}\", desired_state);", "        self.wait_for_state(maindevice, SubDeviceState::PreOp).await?;\n\n        fmt::debug!(\"--> Group reached state {}\", desired_state);")]},
+    {"id": "c10-no-timeout", "property": "C10", "expect": "C10.timeout|SubDeviceGroup::wait_for_state",
+     "edits": [("src/subdevice_group/mod.rs", """                maindevice.timeouts.loop_tick().await;
+            }
+        }
+        .timeout(maindevice.timeouts.state_transition())
+        .await
+    }
+
+    /// Transition to a new state.""", """                maindevice.timeouts.loop_tick().await;
+            }
+        }
+        .await
+    }
+
+    /// Transition to a new state.""")]},
+    {"id": "c10-is-state-any", "property": "C10", "expect": "C10.is_state|compare-every-response",
+     "edits": [("src/subdevice_group/mod.rs", "                if result.state != desired_state {\n                    return Ok(false);\n                }", "                if result.state == desired_state {\n                    return Ok(true);\n                }")]},
+    {"id": "c10-skip-first-member", "property": "C10", "expect": "C10.transition|request-every-member",
+     "edits": [("src/subdevice_group/mod.rs", "        for subdevice in self.inner.get_mut().subdevices.iter_mut() {\n            SubDeviceRef::new(maindevice, subdevice.configured_address(), subdevice)\n                .request_subdevice_state_nowait(desired_state)", "        for subdevice in self.inner.get_mut().subdevices.iter_mut().skip(1) {\n            SubDeviceRef::new(maindevice, subdevice.configured_address(), subdevice)\n                .request_subdevice_state_nowait(desired_state)")]},
+    {"id": "c10-summary-bitmap", "property": "C10", "expect": "C10.summary",
+     "edits": [("src/subdevice_group/tx_rx_response.rs", """        // Every single SubDevice must have reported the desired state. The `group_state` bitmap
+        // cannot be used here as a `None` state contributes no bits to it.
+        self.subdevice_states
+            .iter()
+            .all(|state| *state == desired_state)""", """        self.group_state().bits() == u8::from(desired_state)""")]},
+    {"id": "c10-main-wait-ignores-wkc", "property": "C10", "expect": "C10.main_wait|expects-all-devices",
+     "edits": [("src/maindevice.rs", "                    .with_wkc(num_subdevices)\n", "                    .ignore_wkc()\n")], "also": ["C11"]},
+    # ---------------- C12 ----------------
+    {"id": "c12-no-clamp", "property": "C12", "expect": "C12.read|clamped-destination",
+     "edits": [("src/eeprom/mod.rs", "            .get_mut(0..requested_read_len.min(max_read))", "            .get_mut(0..requested_read_len)")]},
+    {"id": "c12-identity-word", "property": "C12", "expect": "C12.addr|SubDeviceEeprom::identity",
+     "edits": [("src/subdevice/eeprom.rs", "self.start_at(0x0008, SubDeviceIdentity::PACKED_LEN as u16)", "self.start_at(0x000a, SubDeviceIdentity::PACKED_LEN as u16)")]},
+    {"id": "c12-sm-enable-offset", "property": "C12", "expect": "C12.struct|SyncManager",
+     "edits": [("src/eeprom/types.rs", "    #[wire(bytes = 1, post_skip_bytes = 1)]\n    pub(crate) control: sync_manager_channel::Control,\n    #[wire(bytes = 1)]\n    pub(crate) enable: SyncManagerEnable,", "    #[wire(bytes = 1)]\n    pub(crate) control: sync_manager_channel::Control,\n    #[wire(bytes = 1, post_skip_bytes = 1)]\n    pub(crate) enable: SyncManagerEnable,")], "also": ["C19"], "also_expect_none": ["C19"]},
+    {"id": "c12-odd-skip-always", "property": "C12", "expect": "C12.read|odd-skip",
+     "edits": [("src/eeprom/mod.rs", """            // If position is odd, we must skip the first received byte as the reader operates on
+            // WORD addresses.
+            let skip = (self.byte_pos % 2) as usize;""", """            // If position is odd, we must skip the first received byte as the reader operates on
+            // WORD addresses.
+            let skip = (self.byte_pos % 4) as usize;""")]},
+    {"id": "c12-category-code", "property": "C12", "expect": "C12.addr|category-codes",
+     "edits": [("src/eeprom/types.rs", "    SyncManager = 41,", "    SyncManager = 44,")]},
+    # ---------------- C14 ----------------
+    {"id": "c14-checksum-before-patch", "property": "C14", "expect": "C14.alias|alias-then-checksum",
+     "edits": [("src/subdevice/eeprom.rs", """            chunk[STATION_ALIAS_POSITION].copy_from_slice(&new_alias.to_le_bytes());
+
+            u16::from(STATION_ALIAS_CRC.checksum(&chunk))""", """            let crc = u16::from(STATION_ALIAS_CRC.checksum(&chunk));
+
+            chunk[STATION_ALIAS_POSITION].copy_from_slice(&new_alias.to_le_bytes());
+
+            crc""")]},
+    {"id": "c14-crc-init-0", "property": "C14", "expect": "C14.const|crc-parameters",
+     "edits": [("src/eeprom/mod.rs", "    poly: 0x07,\n    init: 0xff,", "    poly: 0x07,\n    init: 0x00,")]},
+    {"id": "c14-retry-unbounded", "property": "C14", "expect": "C14.retry|bounded-retry",
+     "edits": [("src/eeprom/device_provider.rs", "if status.command_error && retry_count < 20 {", "if status.command_error {")]},
+    {"id": "c14-checksum-word-6", "property": "C14", "expect": "C14.const|checksum-range",
+     "edits": [("src/eeprom/mod.rs", "pub const CHECKSUM_POSITION: core::ops::Range<usize> = 14..16;", "pub const CHECKSUM_POSITION: core::ops::Range<usize> = 12..14;")]},
+    {"id": "c14-write-past-end", "property": "C14", "expect": "C14.write|range-write",
+     "edits": [("src/eeprom/mod.rs", """            // The pointer has reached the end of the chunk
+            if self.end.saturating_sub(self.byte_pos) == 0 {
+                break;
+            }
+""", "")]},
+    # ---------------- C15 ----------------
+    {"id": "c15-abort-before-emergency", "property": "C15", "expect": "C15.triage|order-and-kinds",
+     "edits": [("src/mailbox/coe/mod.rs", "        } else if headers.command == CoeCommand::Abort {", "        } else if headers.command == CoeCommand::Abort && headers.header.mailbox_type == MailboxType::Coe {")], "skip": True},
+    {"id": "c15-one-counter-for-segments", "property": "C15", "expect": "C15.counter|SdoSegmented::upload",
+     "edits": [("src/mailbox/coe/mod.rs", """                let mut toggle = false;
+                let mut total_len = 0usize;
+
+                loop {
+                    let request = SdoSegmented::upload(self.subdevice.mailbox_counter(), toggle);""", """                let mut toggle = false;
+                let mut total_len = 0usize;
+                let segment_counter = self.subdevice.mailbox_counter();
+
+                loop {
+                    let request = SdoSegmented::upload(segment_counter, toggle);""")]},
+    {"id": "c15-no-toggle", "property": "C15", "expect": "C15.read|toggle-per-segment",
+     "edits": [("src/mailbox/coe/mod.rs", "                    toggle = !toggle;\n", "")]},
+    {"id": "c15-no-too-long", "property": "C15", "expect": "C15.read|too-long-guard",
+     "edits": [("src/mailbox/coe/mod.rs", "            if complete_size > buf.len() as u32 {", "            if complete_size > buf.len() as u32 && false {")]},
+    {"id": "c15-count-first", "property": "C15", "expect": "C15.array|write-array",
+     "edits": [("src/mailbox/coe/mod.rs", "        self.sdo_write(index, 0, 0u8).await?;\n\n        for (i, value) in values.iter().enumerate() {", "        self.sdo_write(index, 0, values.len() as u8).await?;\n\n        for (i, value) in values.iter().enumerate() {")]},
+    {"id": "c15-counter-cycle-8", "property": "C15", "expect": "C15.counter|cycle-1..7",
+     "edits": [("src/subdevice/mod.rs", "if n >= 7 { Some(1) } else { Some(n + 1) }", "if n >= 8 { Some(1) } else { Some(n + 1) }")]},
+    {"id": "c15-invalid-response-accepted", "property": "C15", "expect": "C15.triage|order-and-kinds",
+     "edits": [("src/mailbox/coe/mod.rs", "            || !request.validate_response(headers.address, headers.sub_index)\n", "")]},
+    # ---------------- C19 ----------------
+    {"id": "c19-mask-off-by-one", "property": "C19", "expect": "C19.tv|read-field",
+     "edits": [("ethercrab-wire-derive/src/generate_struct.rs", """        if field.bits.len() <= 8 {
+            let mask = (2u16.pow(field.bits.len() as u32) - 1) << bit_start;""", """        if field.bits.len() <= 8 {
+            let mask = (2u16.pow(field.bits.len() as u32 + if bit_start == 5 { 1 } else { 0 }) - 1) << bit_start;""")]},
+    {"id": "c19-no-zero-fill", "property": "C19", "expect": "C19.tv|write-zero-fill",
+     "edits": [("ethercrab-wire-derive/src/generate_struct.rs", """                unsafe {
+                    buf.as_mut_ptr().write_bytes(0u8, buf.len());
+                }
+
+                #(#fields_pack)*""", """                #(#fields_pack)*""")]},
+    {"id": "c19-enum-implicit-from-1", "property": "C19", "expect": "C19.tv|enum-read|shape:implicit-first-variant",
+     "edits": [("ethercrab-wire-derive/src/parse_enum.rs", "None => discriminant_accum.map_or(0, |previous| previous + 1),", "None => discriminant_accum.map_or(1, |previous| previous + 1),")]},
+    {"id": "c19-write-shift", "property": "C19", "expect": "C19.tv|write-field",
+     "edits": [("ethercrab-wire-derive/src/generate_struct.rs", """            quote! {
+                buf[#byte_start] |= ((#field_access as u8) << #bit_start) & #mask;
+            }""", """            let bit_start = if bit_start == 3 { 2 } else { bit_start };
+            quote! {
+                buf[#byte_start] |= ((#field_access as u8) << #bit_start) & #mask;
+            }""")]},
+    {"id": "c19-u32-be", "property": "C19", "expect": "C19.prim|le-pair|u32",
+     "edits": [("ethercrab-wire/src/impls.rs", "                    .map(|chunk| Self::from_le_bytes(*chunk))", "                    .map(|chunk| Self::from_be_bytes(*chunk))")]},
+    {"id": "c19-default-as-error", "property": "C19", "expect": "C19.tv|enum-read",
+     "edits": [("ethercrab-wire-derive/src/generate_enum.rs", """    } else if let Some(ref default_variant) = parsed.default_variant {
+        let default = default_variant.name.clone();
+
+        quote! {
+            _other => Ok(Self::#default)
+        }
+    } else {""", """    } else if let Some(ref _default_variant) = parsed.default_variant {
+        quote! {
+            _other => { Err(::ethercrab_wire::WireError::InvalidValue) }
+        }
+    } else {""")]},
+    # ---------------- C20 ----------------
+    {"id": "c20-cell-in-maindevice", "property": "C20", "expect": "C20.unsafe|MainDevice:Sync",
+     "edits": [("src/maindevice.rs", "    pub(crate) config: MainDeviceConfig,\n}", "    pub(crate) config: MainDeviceConfig,\n    #[allow(unused)]\n    scratch: core::cell::Cell<u16>,\n}"),
+               ("src/maindevice.rs", "            config,\n        }\n    }", "            config,\n            scratch: core::cell::Cell::new(0),\n        }\n    }")]},
+    {"id": "c20-new-unsafe-impl", "property": "C20", "expect": "C20.unsafe|impl:PduLoop:Sync",
+     "edits": [("src/pdu_loop/mod.rs", "impl<'sto> PduLoop<'sto> {\n", "unsafe impl Sync for PduLoop<'_> {}\n\nimpl<'sto> PduLoop<'sto> {\n")]},
+    {"id": "c20-idx-load-store", "property": "C20", "expect": "C20.words",
+     "edits": [("src/pdu_loop/frame_element/frame_box.rs", "        self.pdu_idx.fetch_add(1, Ordering::Relaxed)", "        let v = self.pdu_idx.load(Ordering::Relaxed);\n        self.pdu_idx.store(v.wrapping_add(1), Ordering::Relaxed);\n        v")]},
+    {"id": "c20-lock-after-alloc", "property": "C20", "expect": "C20.lock|SubDeviceGroup::tx_rx:own-lock", "also": ["C07"],
+     "edits": [("src/subdevice_group/mod.rs", """        let mut pdi_lock = self.pdi.write();
+
+        let mut total_bytes_sent = 0;
+        let mut lrw_wkc_sum = 0u16;
+
+        let mut subdevices = self.inner().subdevices.iter();
+        let mut total_checks = 0;
+        let mut subdevice_states = heapless::Vec::<_, MAX_SUBDEVICES>::new();
+
+        loop {
+            let chunk_len = self.pdi_len.saturating_sub(total_bytes_sent);
+
+            if chunk_len == 0 && total_checks >= self.len() {
+                break;
+            }
+""", """        let _probe = maindevice.pdu_loop.alloc_frame()?;
+        drop(_probe);
+        let mut pdi_lock = self.pdi.write();
+
+        let mut total_bytes_sent = 0;
+        let mut lrw_wkc_sum = 0u16;
+
+        let mut subdevices = self.inner().subdevices.iter();
+        let mut total_checks = 0;
+        let mut subdevice_states = heapless::Vec::<_, MAX_SUBDEVICES>::new();
+
+        loop {
+            let chunk_len = self.pdi_len.saturating_sub(total_bytes_sent);
+
+            if chunk_len == 0 && total_checks >= self.len() {
+                break;
+            }
+""")]},
 ]
